@@ -22,7 +22,7 @@
 From Coq Require Import List Arith Bool ZArith.
 From VBase Require Import FieldOps ZpOps.
 From VModel Require Import Soundness.
-From VProofs Require Import ZpLaws SoundnessPoly SoundnessEnforce SoundnessBoundary SoundnessVerifier SoundnessExamples.
+From VProofs Require Import ZpLaws SoundnessPoly SoundnessEnforce SoundnessBoundary SoundnessVerifier SoundnessCount SoundnessExamples.
 Import ListNotations.
 Local Open Scope nat_scope.
 
@@ -250,6 +250,19 @@ Theorem C02_ali_fiber_unique_partial : forall {F} (O : FOps F), FLaws O -> foral
   pdivides O d (padd O p0 (pscale O a p1)) -> pdivides O d (padd O p0 (pscale O b p1)) -> a = b.
 Proof. exact (@ali_fiber_unique). Qed.
 Print Assumptions C02_ali_fiber_unique_partial.
+
+(* the count itself, for a finite field enumerated by [elems] (|F| = length elems when it has no duplicates): for FIXED
+   polynomials p_1..p_k with some p_j not divisible by d, at most |F|^(k-1) of the |F|^k coefficient vectors make
+   sum_i alpha_i p_i divisible by d.  (What remains unproved for eps_ALI is the proximity-gap setting, where "divisible" is
+   replaced by "close to a low-degree polynomial".) *)
+Theorem C02_ali_counting : forall {F} (O : FOps F), FLaws O -> forall (d : list F) (ps : list (list F)) (j : nat),
+  j < length ps -> ~ pdivides O d (nth j ps []) ->
+  forall elems : list F, (forall x, In x elems) ->
+  forall goods : list (list F), NoDup goods ->
+  (forall al, In al goods -> length al = length ps /\ pdivides O d (lincomb O al ps)) ->
+  length goods <= length elems ^ (length ps - 1).
+Proof. exact (@ali_counting). Qed.
+Print Assumptions C02_ali_counting.
 
 (* ------------------------------------------------------------------ the statement is in the seed *)
 Theorem C02_seed_binds_statement : forall {F} (O : FOps F),
